@@ -25,6 +25,17 @@ def has_gliding_user_cold_utility(prob):
     return any(u["type"] in ("Cold", "Both") and u["t_supply"] != u["t_target"] for u in prob["utilities"])
 
 
+def is_d24(prob, k, kind, clause, t, hu, cu, short_zones):
+    """Trigger of finding D24: a user cold utility with a glide exists, and either this DI record lists less cold duty than its
+    Qc (hot side closed), or this is a site-level record of a problem in which some zone does (the site cascade and the
+    total-process sums inherit the missing cold duty)."""
+    if not has_gliding_user_cold_utility(prob):
+        return False
+    if kind == "DI":
+        return clause == 25 and sum(cu) < t.Qc - 1e-6 and abs(sum(hu) - t.Qh) <= 1e-6 * max(1.0, t.Qh)
+    return clause in (21, 22, 25) and id(prob) in short_zones
+
+
 def collect(prob):
     """(record name, covered input streams, TargetResults, kind) for every record of the output."""
     out, mz = pc.run_service(prob)
@@ -74,6 +85,8 @@ def run(ctx):
             cf.add(f"c02_b eps6 [{'; '.join(c01.coq_sin(s) for s in xs)}] {qlit(t.Qh)} {qlit(t.Qc)} {qlit(t.Qr)} {qlist(hu)} {qlist(cu)}")
             meta.append((prob, m, k, kind, xs, t, hu, cu))
     agree = bad = 0
+    short_zones = {id(prob) for (prob, m, k, kind, xs, t, hu, cu) in meta
+                   if kind == "DI" and sum(cu) < t.Qc - 1e-6 and abs(sum(hu) - t.Qh) <= 1e-6 * max(1.0, t.Qh)}
     for (prob, m, k, kind, xs, t, hu, cu), v in zip(meta, cf.run()):
         ctx.evaluations += 1
         ctx.count(f"{kind}_{m['regime']}_z{m['zones']}")
@@ -86,7 +99,7 @@ def run(ctx):
             continue
         clause = {21: "Qh - Qc != cold duty - hot duty", 22: "Qr != hot duty - Qc", 23: "negative target", 24: "negative utility duty",
                   25: "sum(hot utilities) - sum(cold utilities) != Qh - Qc"}.get(v[1], str(v))
-        if v[1] == 25 and has_gliding_user_cold_utility(prob) and sum(cu) < t.Qc - 1e-6 and abs(sum(hu) - t.Qh) <= 1e-6 * max(1.0, t.Qh):
+        if is_d24(prob, k, kind, v[1], t, hu, cu, short_zones):
             ctx.fail("glide-utility-undersupplied", f"record {k}: {clause}", suite="records", input=dict(problem=prob, record=k),
                      impl_output=dict(Qh=t.Qh, Qc=t.Qc, Qr=t.Qr, hot=hu, cold=cu), predicate="c02_b")
             continue
